@@ -159,6 +159,12 @@ impl<T: RangeNumber> Range<T> {
         }
     }
 
+    /// Verification hook: forwards to the private `do_match`.
+    #[cfg(feature = "verif_hooks")]
+    pub fn verif_do_match(&self, count: T) -> bool {
+        self.do_match(count)
+    }
+
     fn flatten(self) -> Self {
         let Range::Multiple(ranges) = self else {
             return self;
